@@ -111,6 +111,7 @@ type Task struct {
 	parent    int
 	opSeq     uint64
 	prio      int
+	lastNow   int64
 }
 
 type timer struct {
@@ -149,8 +150,9 @@ type Sim struct {
 	raceSeen map[string]bool
 	atomVC   map[uintptr]*VC
 
-	pct       bool
-	pctAt     []int
+	clockOverride int64
+	pct           bool
+	pctAt         []int
 	pctLow    int
 	poolFresh bool
 	idPtrs    []*int
@@ -158,6 +160,14 @@ type Sim struct {
 }
 
 var cur *Sim
+
+// Package-level state of rewritten packages is re-initialised before every run
+// (the rewriter generates one reset function per package and registers it
+// here), so that a run is a pure function of its choices and not of whatever
+// an earlier run of the same process left in a cache, a pool or a counter.
+var resets []func()
+
+func RegisterReset(pkg string, f func()) { resets = append(resets, f) }
 
 // Epoch of simulated time: 2023-08-16T00:35:15Z in Unix nanoseconds.
 const epochNanos int64 = 1692146115 * 1e9
@@ -201,6 +211,9 @@ func Run(cfg RunConfig, ch Chooser, mainFn func()) *Result {
 	s.timeJump = []int{0, 0, 1, 4}[ch.Choose("cfg.timejump", 4)]
 	if !cfg.LatePreempt {
 		s.drawPreemptPlan()
+	}
+	for _, f := range resets {
+		f()
 	}
 	cur = s
 	t0 := s.newTask("main", "main", -1)
